@@ -991,7 +991,7 @@ class C19(Property):
         finally:
             close()
 
-    def drain_jsonl(self, content, mode, ign, reverse, pre=0, rel_seek=None, resume=None):
+    def drain_jsonl(self, content, mode, ign, reverse, pre=0, rel_seek=None, resume=None, poss=None):
         """objects yielded by a plain loop and the exception that ended it; with resume=[] also every next()
         result when the caller goes on after each error (appended to the list: ['o', obj] / ['e', name])"""
         from boltons.jsonutils import JSONLIterator
@@ -1028,6 +1028,11 @@ class C19(Property):
                     continue
                 if first_exc is None:
                     objs.append(o)
+                    if poss is not None:
+                        try:
+                            poss.append(int(it.cur_byte_pos))
+                        except Exception as e:
+                            poss.append('?' + exc_name(e))
                 if resume is not None:
                     resume.append(['o', o])
             return objs, first_exc
@@ -1077,10 +1082,13 @@ class C19(Property):
                     c = content(case)
                     fa = None if case['ign'] else []
                     ra = None if case['ign'] else []
-                    fo, fe = self.drain_jsonl(c, case['mode'], case['ign'], False, resume=fa)
+                    fp = [] if case['mode'][0] == 'b' else None
+                    fo, fe = self.drain_jsonl(c, case['mode'], case['ign'], False, resume=fa, poss=fp)
                     # reverse mode starts from the end wherever the file position was
                     ro, re_ = self.drain_jsonl(c, case['mode'], case['ign'], True, case.get('pre', 0), resume=ra)
                     obs = {'fwd': fo, 'fexc': fe, 'rev': ro, 'rexc': re_}
+                    if fp is not None:
+                        obs['fpos'] = fp
                     if fa is not None:
                         obs['fall'], obs['rall'] = fa, ra
                     return obs
@@ -1128,6 +1136,8 @@ class C19(Property):
             def run(objs, e):
                 return (','.join(self.show_obj(o) for o in objs) if objs else '[]') + ('!' + e if e else '')
             out = 'F' + run(obs['fwd'], obs['fexc']) + ' R' + run(obs['rev'], obs['rexc'])
+            if k == 'jl' and 'fpos' in obs:
+                out += ' P' + ('.'.join(str(x) for x in obs['fpos']) or '-')
             if k == 'jl' and 'fall' in obs:
                 def allres(rs):
                     return ','.join(self.show_obj(x[1]) if x[0] == 'o' else '!' + x[1] for x in rs) if rs else '[]'
